@@ -372,84 +372,89 @@ func c04WriteFaults(t *testing.T, c *ev.Collector) {
 	idx := 0
 	for _, p := range AllProtos {
 		for _, kind := range []Kind{KUnary, KServer, KBidi} {
-			for k := 0; k <= 9; k++ {
-				idx++
-				if !ev.Mine(idx) {
-					continue
+			for _, base := range []int{20, 20000, 70000} { // message sizes: small, above 16 KiB, above 64 KiB
+				for k := 0; k <= 9; k++ {
+					idx++
+					if !ev.Mine(idx) {
+						continue
+					}
+					key := fmt.Sprintf("resp-write-fails/%s/%s/after%d", p, kind, k)
+					if base != 20 {
+						key += fmt.Sprintf("/msg%d", base)
+					}
+					c.Case(key, true)
+					Bubble(t, func() {
+						var sendErrs []error
+						inSend, failedInSend := -1, -1 // index of the Send in progress / of the one whose write failed
+						sent := [][]byte{}
+						var tr *memhttp.Transport
+						h := NewHandler(kind, func(ctx context.Context, s HStream) error {
+							for {
+								if _, err := s.Receive(); err != nil {
+									break
+								}
+							}
+							n := 1
+							if kind.ServerStreams() {
+								n = 3
+							}
+							for i := 0; i < n; i++ {
+								p := Payload(base+i, byte(0x41+i))
+								inSend = i
+								err := s.Send(&BV{Value: p})
+								inSend = -1
+								sendErrs = append(sendErrs, err)
+								if err != nil {
+									return err
+								}
+								sent = append(sent, p)
+							}
+							return nil
+						}, connect.WithCompressMinBytes(1<<20))
+						fw := &failingWriter{after: k}
+						tr = &memhttp.Transport{Handler: h, Proto: 2, SyncCloseReq: true}
+						fw.onFail = func() { failedInSend = inSend; tr.BreakLast(memhttp.ErrTransport) }
+						tr.WrapRespWriter = func(w http.ResponseWriter) http.ResponseWriter { fw.ResponseWriter = w; return fw }
+						cl := NewClient(tr, Cfg{Proto: p, Comp: CompNone, Kind: kind, HTTP: 2})
+						var res CallResult
+						g := Guarded(func() { res = RunCall(context.Background(), cl, kind, [][]byte{{1}}, nil) }, tr)
+						c.AddTransitions(4)
+						c.AddStates(3)
+						c.AddTraces(1)
+						tags := []string{"proto=" + p.String(), "kind=" + kind.String(), "write-fault"}
+						if g.Hung || g.Panicked {
+							c.Violation("TestC04", "terminates", "hang-or-panic", tags, key, "%s: hung=%v panic=%v\n%s", key, g.Hung, g.Panic, g.Stack)
+							BailIfStuck(c, g)
+							return
+						}
+						if !fw.failed {
+							// the response needed fewer writes: it is complete
+							if res.Err != nil {
+								c.Violation("TestC04", "uncut-outcome", "differs", tags, key, "%s: no write failed but the call failed: %v", key, res.Err)
+							}
+							c.Outcome("success")
+							return
+						}
+						if res.Err == nil {
+							c.Violation("TestC04", "success-needs-terminator", "clean-success", tags, key, "%s: write %d of the response failed but the client reports success with %s", key, k+1, shortMsgs(res.Msgs))
+							c.Outcome("violation")
+							return
+						}
+						if CodeOfErr(res.Err) == 0 {
+							c.Violation("TestC04", "coded-error", "uncoded", tags, key, "%s: %v", key, res.Err)
+						}
+						if !isPrefix(res.Msgs, append(sent, Payload(base+len(sent), byte(0x41+len(sent))))) {
+							c.Violation("TestC04", "delivered-prefix", "not-a-prefix", tags, key, "%s: client got %s, handler sent %s", key, shortMsgs(res.Msgs), shortMsgs(sent))
+						}
+						// the Send whose write failed must report it
+						// (single-response kinds send from the framework, after user code returned;
+						// how many writes a Send needs is the library's business)
+						if kind.ServerStreams() && failedInSend >= 0 && failedInSend < len(sendErrs) && sendErrs[failedInSend] == nil {
+							c.Violation("TestC04", "write-failure-reported", "swallowed", tags, key, "%s: write %d failed inside Send #%d, which returned nil", key, k+1, failedInSend+1)
+						}
+						c.Outcome("failed:" + CodeOfErr(res.Err).String())
+					})
 				}
-				key := fmt.Sprintf("resp-write-fails/%s/%s/after%d", p, kind, k)
-				c.Case(key, true)
-				Bubble(t, func() {
-					var sendErrs []error
-					inSend, failedInSend := -1, -1 // index of the Send in progress / of the one whose write failed
-					sent := [][]byte{}
-					var tr *memhttp.Transport
-					h := NewHandler(kind, func(ctx context.Context, s HStream) error {
-						for {
-							if _, err := s.Receive(); err != nil {
-								break
-							}
-						}
-						n := 1
-						if kind.ServerStreams() {
-							n = 3
-						}
-						for i := 0; i < n; i++ {
-							p := Payload(20+i, byte(0x41+i))
-							inSend = i
-							err := s.Send(&BV{Value: p})
-							inSend = -1
-							sendErrs = append(sendErrs, err)
-							if err != nil {
-								return err
-							}
-							sent = append(sent, p)
-						}
-						return nil
-					}, connect.WithCompressMinBytes(1<<20))
-					fw := &failingWriter{after: k}
-					tr = &memhttp.Transport{Handler: h, Proto: 2, SyncCloseReq: true}
-					fw.onFail = func() { failedInSend = inSend; tr.BreakLast(memhttp.ErrTransport) }
-					tr.WrapRespWriter = func(w http.ResponseWriter) http.ResponseWriter { fw.ResponseWriter = w; return fw }
-					cl := NewClient(tr, Cfg{Proto: p, Comp: CompNone, Kind: kind, HTTP: 2})
-					var res CallResult
-					g := Guarded(func() { res = RunCall(context.Background(), cl, kind, [][]byte{{1}}, nil) }, tr)
-					c.AddTransitions(4)
-					c.AddStates(3)
-					c.AddTraces(1)
-					tags := []string{"proto=" + p.String(), "kind=" + kind.String(), "write-fault"}
-					if g.Hung || g.Panicked {
-						c.Violation("TestC04", "terminates", "hang-or-panic", tags, key, "%s: hung=%v panic=%v\n%s", key, g.Hung, g.Panic, g.Stack)
-						BailIfStuck(c, g)
-						return
-					}
-					if !fw.failed {
-						// the response needed fewer writes: it is complete
-						if res.Err != nil {
-							c.Violation("TestC04", "uncut-outcome", "differs", tags, key, "%s: no write failed but the call failed: %v", key, res.Err)
-						}
-						c.Outcome("success")
-						return
-					}
-					if res.Err == nil {
-						c.Violation("TestC04", "success-needs-terminator", "clean-success", tags, key, "%s: write %d of the response failed but the client reports success with %s", key, k+1, shortMsgs(res.Msgs))
-						c.Outcome("violation")
-						return
-					}
-					if CodeOfErr(res.Err) == 0 {
-						c.Violation("TestC04", "coded-error", "uncoded", tags, key, "%s: %v", key, res.Err)
-					}
-					if !isPrefix(res.Msgs, append(sent, Payload(20+len(sent), byte(0x41+len(sent))))) {
-						c.Violation("TestC04", "delivered-prefix", "not-a-prefix", tags, key, "%s: client got %s, handler sent %s", key, shortMsgs(res.Msgs), shortMsgs(sent))
-					}
-					// the Send whose write failed must report it
-					// (single-response kinds send from the framework, after user code returned;
-					// how many writes a Send needs is the library's business)
-					if kind.ServerStreams() && failedInSend >= 0 && failedInSend < len(sendErrs) && sendErrs[failedInSend] == nil {
-						c.Violation("TestC04", "write-failure-reported", "swallowed", tags, key, "%s: write %d failed inside Send #%d, which returned nil", key, k+1, failedInSend+1)
-					}
-					c.Outcome("failed:" + CodeOfErr(res.Err).String())
-				})
 			}
 		}
 	}
@@ -538,7 +543,7 @@ func (r readerFunc) Close() error               { return r.c.Close() }
 func TestC04(t *testing.T) {
 	c := ev.New("C04")
 	defer func() { _ = c.Finish() }()
-	c.SetRule("crash-point / fault enumeration: every body of the corpus of valid request and response bodies (see C03) x every cut offset 0..len(body) x terminal answer {clean EOF, io.ErrUnexpectedEOF, transport error, HTTP/2 stream reset by the peer with NO_ERROR / CANCEL (+ REFUSED_STREAM, ENHANCE_YOUR_CALM, INTERNAL_ERROR in thorough)} x {answer on a separate read, answer together with the last data} x {HTTP trailers delivered, dropped} (gRPC); plus HTTPClient.Do failing before any response with each answer, the k-th ResponseWriter.Write failing for k = 0..9, and the connection dying after k request bytes; oracle: a response cut before its terminator or a failed transport makes the call fail with a coded non-OK error, delivered messages are a prefix of those sent, nothing hangs (bubble) or panics, the complete body gives the uncut outcome; a request body that failed or stopped inside an envelope never gives the handler a clean end of stream or an OK answer; distinct = (body, offset, answer, placement, trailers); non-trivial = cut before the end or non-EOF answer")
+	c.SetRule("crash-point / fault enumeration: every body of the corpus of valid request and response bodies (see C03) x every cut offset 0..len(body) x terminal answer {clean EOF, io.ErrUnexpectedEOF, transport error, HTTP/2 stream reset by the peer with NO_ERROR / CANCEL (+ REFUSED_STREAM, ENHANCE_YOUR_CALM, INTERNAL_ERROR in thorough)} x {answer on a separate read, answer together with the last data} x {HTTP trailers delivered, dropped} (gRPC); plus HTTPClient.Do failing before any response with each answer, the k-th ResponseWriter.Write failing for k = 0..9 with messages of 20 B, 20 kB and 70 kB, and the connection dying after k request bytes; oracle: a response cut before its terminator or a failed transport makes the call fail with a coded non-OK error, delivered messages are a prefix of those sent, nothing hangs (bubble) or panics, the complete body gives the uncut outcome; a request body that failed or stopped inside an envelope never gives the handler a clean end of stream or an OK answer; distinct = (body, offset, answer, placement, trailers); non-trivial = cut before the end or non-EOF answer")
 	c.Assume("faults are injected at the io.Reader the library reads from; unary Connect bodies cut with a clean EOF are different complete bodies and are not judged")
 	thorough := ev.Thorough()
 	if ev.ReplayFile() != "" {
